@@ -17,6 +17,7 @@ import mpmath
 import numpy as np
 import torch
 
+import bigbatch
 import common
 import gradlib
 import lattice
@@ -132,6 +133,14 @@ def replay_wave(chk, e, n, rng, exp_table):
     c.vec("positive:gradient", pos.gradient(batch)[0], ssum, 1e-10, e["layout"])
     mean = [x / m for x in ssum]
     c.vec("positive:positive_phase_gradients", pos.positive_phase_gradients(batch)[0], mean, 1e-10, e["layout"])
+    if n % 6 == 0:            # a batch of thousands of rows (a training set): the sum over its rows
+        M = bigbatch.size(n // 6)
+        bi = bigbatch.rows(n, 2 ** nv, M)
+        cnt = [bi.count(k) for k in range(2 ** nv)]
+        bsum = [sum(cnt[k] * Lam[k][q] for k in range(2 ** nv)) for q in range(npar)]
+        c.vec("positive:gradient[long-batch]", pos.gradient(sp[bi])[0], bsum, 1e-10 * M, e["layout"])
+        c.vec("positive:positive_phase_gradients[long-batch]", pos.positive_phase_gradients(sp[bi])[0],
+              [x / M for x in bsum], 1e-10, e["layout"])
     pn = [terms.mpf(x / Z) for x in p]
     env = dict(domain=dict(rows=list(range(m)), v=list(range(2 ** nv))))
     nll = []
@@ -202,6 +211,14 @@ def replay_wave(chk, e, n, rng, exp_table):
     g = cx.gradient(batch, bases=nb)
     c.vec("complex:gradient[batch]:am", g[0], tot["am"], ttol, e["layout"])
     c.vec("complex:gradient[batch]:ph", g[1], tot["ph"], ttol, e["layout"])
+    if n % 6 == 0:           # thousands of rows drawn from these (a training batch with many repeats)
+        M = bigbatch.size(n // 6)
+        bi = bigbatch.rows(n, m, M)
+        g = cx.gradient(batch[bi], bases=nb[bi])
+        for net, gi in (("am", 0), ("ph", 1)):
+            c.vec("complex:gradient[long-batch]:" + net, g[gi],
+                  [sum(bi.count(j) * rg[net][j][q] for j in range(m)) for q in range(npar)],
+                  float(sum(bi.count(j) * tol_row[j] for j in range(m))), e["layout"])
     # any row permutation gives the same gradient
     perm = list(range(m))
     rng.shuffle(perm)
@@ -376,6 +393,14 @@ def replay_dm(chk, e, n, rng, exp_table):
     g = st.gradient(batch, bases=nb)
     c.vec("density:gradient[batch]:am", g[0], tot["am"], ttol, e["layout"])
     c.vec("density:gradient[batch]:ph", g[1], tot["ph"], ttol, e["layout"])
+    if n % 6 == 0:           # thousands of rows drawn from these (a training batch with many repeats)
+        M = bigbatch.size(n // 6)
+        bi = bigbatch.rows(n, m, M)
+        g = st.gradient(batch[bi], bases=nb[bi])
+        for net, gi in (("am", 0), ("ph", 1)):
+            c.vec("density:gradient[long-batch]:" + net, g[gi],
+                  [sum(bi.count(jx) * rg[net][jx][q] for jx in range(m)) for q in range(npar)],
+                  float(sum(bi.count(jx) * tol_row[jx] for jx in range(m))), e["layout"])
     perm = list(range(m))
     rng.shuffle(perm)
     g2 = st.gradient(batch[perm], bases=nb[perm])
